@@ -118,3 +118,16 @@ Proof. vm_compute. split; reflexivity. Qed.
 Example C12_example_oracle : ok_exact 16 [64;64] [[16;32];[32;16]] 8 1 = true /\ ok_exact 16 [64;64] [[16;32];[32;16]] 17 2 = false
   /\ ok_case [4;4] [[1;2];[4;0]] = true /\ ok_case [4;4] [[5;0]] = false.
 Proof. vm_compute. repeat split; reflexivity. Qed.
+
+(* witnesses of the defects found in the pinned implementation (replayed from corpus/C12): the oracle rejects the value
+   the unrepaired code returns and accepts the exact one.  F27: 5 objectives, returned 7 (in this order of the points);
+   F26: 6 objectives, all points on the reference boundary, returned 48. *)
+Example C12_witness_F27 :
+  let P := [[2;2;1;2;1];[1;2;2;2;1];[2;2;1;1;2]] in
+  hv_spec 0 [3;3;3;3;3] P = 8 /\ ok_exact 1 [3;3;3;3;3] P 7 1 = false /\ ok_exact 1 [3;3;3;3;3] P 8 1 = true.
+Proof. vm_compute. repeat split; reflexivity. Qed.
+
+Example C12_witness_F26 :
+  let P := [[1;3;1;0;2;0];[0;1;1;3;3;0];[0;3;2;2;2;1]] in
+  hv_spec 0 [3;3;3;3;3;3] P = 0 /\ ok_exact 1 [3;3;3;3;3;3] P 48 1 = false /\ ok_exact 1 [3;3;3;3;3;3] P 0 1 = true.
+Proof. vm_compute. repeat split; reflexivity. Qed.
